@@ -21,6 +21,9 @@ type Transaction struct {
 	Model       model.DatabaseModel
 	DbName      string
 	Database    database.Database
+	// tables the rows of DeletedRows were deleted from: a UUID chosen by a
+	// client can be in use in more than one table
+	deletedFrom map[string]map[string]struct{}
 	logger      *logr.Logger
 }
 
@@ -173,13 +176,31 @@ func (t *Transaction) Transact(operations ...ovsdb.Operation) ([]*ovsdb.Operatio
 	return results, updates.NewDatabaseUpdate(update, refs)
 }
 
+// markDeleted tracks the deletion of a row by this transaction
+func (t *Transaction) markDeleted(table, uuid string) {
+	t.DeletedRows[uuid] = struct{}{}
+	if t.deletedFrom == nil {
+		t.deletedFrom = make(map[string]map[string]struct{})
+	}
+	if t.deletedFrom[uuid] == nil {
+		t.deletedFrom[uuid] = make(map[string]struct{})
+	}
+	t.deletedFrom[uuid][table] = struct{}{}
+}
+
+// isDeleted returns whether this transaction has deleted the row from the table
+func (t *Transaction) isDeleted(table, uuid string) bool {
+	_, deleted := t.deletedFrom[uuid][table]
+	return deleted
+}
+
 func (t *Transaction) applyReferenceUpdates(update updates.ModelUpdates) error {
 	tables := update.GetUpdatedTables()
 	for _, table := range tables {
 		err := update.ForEachModelUpdate(table, func(uuid string, old, new model.Model) error {
 			// track deleted rows due to reference updates
 			if old != nil && new == nil {
-				t.DeletedRows[uuid] = struct{}{}
+				t.markDeleted(table, uuid)
 			}
 			// warm the cache with updated and deleted rows due to reference
 			// updates
@@ -249,7 +270,7 @@ func (t *Transaction) rowsFromTransactionCacheAndDatabase(table string, where []
 			// the transaction has its own version of this row and that
 			// version does not match the condition any more
 			delete(rows, rowUUID)
-		} else if _, deleted := t.DeletedRows[rowUUID]; deleted {
+		} else if t.isDeleted(table, rowUUID) {
 			// deleted by this transaction: do not bring it back into
 			// the transaction cache
 			delete(rows, rowUUID)
@@ -267,7 +288,7 @@ func (t *Transaction) rowsFromTransactionCacheAndDatabase(table string, where []
 	// exclude deleted rows, unless the transaction has inserted a row with
 	// the same UUID again
 	for rowUUID := range t.DeletedRows {
-		if !t.Cache.Table(table).HasRow(rowUUID) {
+		if t.isDeleted(table, rowUUID) && !t.Cache.Table(table).HasRow(rowUUID) {
 			delete(rows, rowUUID)
 		}
 	}
@@ -321,7 +342,7 @@ func (t *Transaction) checkIndexes() error {
 				return err
 			}
 			for _, existing := range errIndexExists.Existing {
-				if _, isDeleted := t.DeletedRows[existing]; isDeleted {
+				if t.isDeleted(table, existing) {
 					// this model is deleted in the transaction, ignore it
 					continue
 				}
@@ -347,7 +368,7 @@ func (t *Transaction) Insert(op *ovsdb.Operation) (ovsdb.OperationResult, *updat
 	// be it a row of this transaction or a row of the database that this
 	// transaction has not deleted
 	exists := false
-	if _, deleted := t.DeletedRows[op.UUID]; !deleted {
+	if !t.isDeleted(op.Table, op.UUID) {
 		if tc := t.Cache.Table(op.Table); tc != nil {
 			exists = tc.HasRow(op.UUID)
 		}
@@ -467,7 +488,7 @@ func (t *Transaction) Delete(op *ovsdb.Operation) (ovsdb.OperationResult, *updat
 		}
 
 		// track delete operation in transaction to complement cache
-		t.DeletedRows[uuid] = struct{}{}
+		t.markDeleted(op.Table, uuid)
 	}
 
 	return ovsdb.OperationResult{Count: len(rows)}, &update
